@@ -49,6 +49,7 @@ struct WorldCfg {
     bool judge_hooks = false;  // C14: routing of every request
     bool log_mismatch = false; // sched: mismatches go to the trace instead of stopping the run
     bool fault_mode = false;   // afail: the armed step may fail cleanly
+    bool fault_mode_counting = false;  // afail: fault-free counting run, nothing is judged
     bool hist_faults = false;  // hist (C07/C14 fault-injecting runs): an "arm" step makes request k of the next core call fail
     bool shared_world = false;   // sched: hooks are installed before the tasks start and the ledger is shared by all tasks
     bool structure_only_utils = false; // C19: Utils calls other than sort are judged for the well-formedness of what they leave behind only
